@@ -487,7 +487,7 @@ func C14sio(c *vh.Ctx) {
 	depth := c.Pick(2, 3)
 	c.Bound("sio_counter_depth", depth)
 	c.Bound("sio_map_order_deviations", bound)
-	c.Rule("sio: crews of 1-3 recorder machines (ids a, b, \"\"; each appends every message it receives to a log in its bindings and emits according to its mode {nothing, one routed to X, one unrouted, two (routed+unrouted), one routed to a list with a repeated id, the received object itself re-addressed and emitted twice}, optionally one machine that has a state but no specification, which can be shown nothing) plus the built-in timers and captain; first message with every routing target {absent, a, b, unknown id, \"*\", lists with unknown / repeated / non-string members, empty list, \"timers\", \"captain\", a number, \"\"} and a non-map message; also after a change of membership (a warm-up broadcast, then the captain replaces one machine by another - in one message, delete-then-create, create-then-delete - so that the crew has the same size but other members); counter depth up to the bound; every machine-iteration order with at most k deviating map ranges (vrange); oracle: a breadth-first reference router with the documented recipient rule - per machine the multiset of received messages, breadth-first order, every emitted message reported exactly once, emission order kept. states = (crew, target) cases, traces = executions. Fussy recorders: two recorders whose receiving branch has a guard that throws for a message carrying boom, with an error node that listens and records itself / the default error node / an error node without branches; every sequence of up to 3 messages over {normal to all, boom to all, boom to r1, normal to r1}: each machine's record equals that of a reference in which a message whose guard throws has been presented once (at the start node) and only later messages are heard at the error node; and two recorders whose receiving pattern has an optional variable for a property the messages do not carry - every message is heard.")
+	c.Rule("sio: crews of 1-3 recorder machines (ids a, b, \"\"; each appends every message it receives to a log in its bindings and emits according to its mode {nothing, one routed to X, one unrouted, two (routed+unrouted), one routed to a list with a repeated id, the received object itself re-addressed and emitted twice}, optionally one machine that has a state but no specification, which can be shown nothing) plus the built-in timers and captain; first message with every routing target {absent, a, b, unknown id, \"*\", lists with unknown / repeated / non-string members, empty list, \"timers\", \"captain\", a number, \"\"} and a non-map message; also after a change of membership (a warm-up broadcast, then the captain replaces one machine by another - in one message, delete-then-create, create-then-delete - so that the crew has the same size but other members); counter depth up to the bound; every machine-iteration order with at most k deviating map ranges (vrange); oracle: a breadth-first reference router with the documented recipient rule - per machine the multiset of received messages, breadth-first order, every emitted message reported exactly once, emission order kept. states = (crew, target) cases, traces = executions. Fussy recorders: two recorders whose receiving branch has a guard that throws for a message carrying boom, with an error node that listens and records itself / the default error node / an error node without branches; every sequence of up to 3 messages over {normal to all, boom to all, boom to r1, normal to r1}: each machine's record equals that of a reference in which a message whose guard throws has been presented once (at the start node) and only later messages are heard at the error node; and two recorders whose receiving pattern has an optional variable for a property the messages do not carry - every message is heard; and a machine whose native action emits a request to the timers machine carrying a message (with the request's own target for it) and then that very message unrouted: every ordinary machine hears it, and the host is told what was emitted.")
 	var idx uint64
 	c14Fussy(c, &idx)
 	for _, cr := range c14Crews(!c.Quick()) {
